@@ -12,6 +12,7 @@ use crate::progscn::{ProgCase, random_gc};
 use crate::rng::{Rng, Tape};
 use serde::{Deserialize, Serialize};
 use serde_json::{Value, json};
+use std::collections::BTreeMap;
 
 #[derive(Clone, Debug, Serialize, Deserialize)]
 pub struct Scn {
@@ -20,6 +21,197 @@ pub struct Scn {
     pub schedules: Vec<GcSched>,
     pub tape: Tape,
     pub fuel: u64,
+    /// session stratum: a history of module runs and host API calls on ONE interpreter (the
+    /// host keeps exported values and functions across runs and calls them later); `case` is unused
+    #[serde(default)]
+    pub session: Option<Session>,
+}
+
+#[derive(Clone, Debug, Serialize, Deserialize, PartialEq)]
+pub enum SOp {
+    /// prepare/eval the module at this path of the store as the entry program and run it out
+    Run { path: String, eval: bool },
+    /// keep the named export of the last entry program (host-guarded) for later
+    Keep { name: String },
+    /// call kept value #idx (if it is a function) with one numeric argument; keep an object result
+    Call { idx: usize, arg: i64 },
+    /// show kept value #idx (JSON view) and its keys
+    Read { idx: usize },
+    /// host-forced collection (skipped in the collection-off reference run)
+    Collect,
+    /// the host allocates and drops n unrelated objects
+    Churn(u32),
+}
+
+#[derive(Clone, Debug, Serialize, Deserialize)]
+pub struct Session {
+    pub modules: BTreeMap<String, String>,
+    pub ops: Vec<SOp>,
+}
+
+fn session_modules(rng: &mut Rng) -> BTreeMap<String, String> {
+    let mut m = BTreeMap::new();
+    let n = rng.below(50);
+    m.insert(
+        "/s/lib.ts".to_string(),
+        format!("export let counter: number = {n};\nexport const box: any = {{ v: {n}, l: [{{ m: 1 }}] }};\nexport function bump(k: any): number {{ counter += 1; box.v += (Number(k) || 0); box.l.push({{ at: counter }}); return counter; }}\nexport function tag(): string {{ return \"lib:\" + counter + \":\" + box.v + \":\" + box.l.length; }}\nexport class Pt {{ x: number; constructor(x: number) {{ this.x = x; }} twice(): any {{ return {{ t: this.x * 2, from: [this] }}; }} }}\nexport default {{ d: {n}, nested: {{ e: [1, {{ f: 2 }}] }} }};\nconsole.log(\"run lib\");"),
+    );
+    m.insert(
+        "/s/user.ts".to_string(),
+        "import dflt, { counter, box, bump, tag, Pt } from \"./lib.ts\";\nimport * as ns from \"./lib.ts\";\nexport function read(k: any): string { return counter + \"/\" + box.v + \"/\" + tag() + \"/\" + ns.counter + \"/\" + (Number(k) || 0); }\nexport function kind(): string { return typeof bump + \"/\" + typeof dflt + \"/\" + typeof Pt + \"/\" + JSON.stringify(dflt); }\nexport function make(k: any): any { bump(k); return { p: new Pt(Number(k) || 0).twice(), snap: [box, dflt], own: { k: k } }; }\nexport const held: any = { b: box, d: dflt, fresh: [{ z: 1 }] };\nexport let local: any = { n: 0 };\nexport function swap(k: any): any { const old: any = local; local = { n: (Number(k) || 0), prev: [old.n] }; return old; }\nconsole.log(\"run user\", read(0));".to_string(),
+    );
+    m.insert(
+        "/s/chain.ts".to_string(),
+        "export { bump as cbump, tag as ctag, default as cdflt } from \"./lib.ts\";\nexport * as all from \"./user.ts\";\nimport { make, swap } from \"./user.ts\";\nexport const made: any = make(3);\nexport function again(k: any): any { return [make(k), swap(k)]; }\nconsole.log(\"run chain\");".to_string(),
+    );
+    m.insert(
+        "/s/solo.ts".to_string(),
+        format!("const priv: any = {{ secret: [{{ s: {n} }}] }};\nexport const getter: any = () => priv.secret[0].s + priv.secret.length;\nexport function grow(k: any): any {{ priv.secret.push({{ s: k }}); return priv.secret.slice(-2); }}\nexport function* gen(k: any): any {{ let i = 0; while (i < 3) {{ yield {{ i: i++, k: k, p: priv.secret.length }}; }} }}\nexport const it: any = gen(7);\nexport function pull(): any {{ return it.next(); }}\nexport default class Holder {{ static made: any[] = []; static mk(k: any): any {{ const o: any = {{ k: k }}; Holder.made.push(o); return Holder.made.length; }} }}\nconsole.log(\"run solo\");"),
+    );
+    m
+}
+
+fn gen_session(rng: &mut Rng) -> Session {
+    let modules = session_modules(rng);
+    let paths: Vec<String> = modules.keys().cloned().collect();
+    let names: BTreeMap<&str, Vec<&str>> = [
+        ("/s/lib.ts", vec!["box", "bump", "tag", "default", "Pt", "counter"]),
+        ("/s/user.ts", vec!["read", "kind", "make", "held", "swap", "local"]),
+        ("/s/chain.ts", vec!["cbump", "ctag", "cdflt", "all", "made", "again"]),
+        ("/s/solo.ts", vec!["getter", "grow", "gen", "it", "pull", "default"]),
+    ]
+    .into_iter()
+    .collect();
+    let mut ops = Vec::new();
+    let mut kept = 0usize;
+    let mut last: Option<String> = None;
+    let n = 6 + rng.below(18);
+    for _ in 0..n {
+        let r = rng.below(100);
+        if last.is_none() || r < 22 {
+            let p = rng.pick(&paths).clone();
+            ops.push(SOp::Run { path: p.clone(), eval: rng.chance(0.3) });
+            last = Some(p);
+        } else if r < 45 {
+            let l = last.clone().unwrap_or_default();
+            let name = rng.pick(&names[l.as_str()]).to_string();
+            ops.push(SOp::Keep { name });
+            kept += 1;
+        } else if r < 70 && kept > 0 {
+            ops.push(SOp::Call { idx: rng.below(kept), arg: rng.range(0, 9) });
+            kept += 1; // a call keeps its result too
+        } else if r < 80 && kept > 0 {
+            ops.push(SOp::Read { idx: rng.below(kept) });
+        } else if r < 90 {
+            ops.push(SOp::Collect);
+        } else {
+            ops.push(SOp::Churn(1 + rng.below(120) as u32));
+        }
+    }
+    // always end by using everything that was kept
+    for i in 0..kept.min(12) {
+        ops.push(SOp::Call { idx: i, arg: 1 });
+        ops.push(SOp::Read { idx: i });
+    }
+    Session { modules, ops }
+}
+
+/// Execute a session under one collection schedule; returns the host-visible trace.
+fn run_session(sess: &Session, gc: &GcSched, fuel: u64) -> (Vec<String>, crate::host::Outcome) {
+    use tsrun::api;
+    tsrun::verif::reset();
+    let mut h = crate::host::new_interp(0, 1);
+    let mut trace: Vec<String> = Vec::new();
+    let mut total = crate::host::Outcome::default();
+    let keep_guard = api::create_guard(&h.interp);
+    let mut kept: Vec<tsrun::JsValue> = Vec::new();
+    crate::host::install_gc(gc, 0);
+    h.interp.set_gc_threshold(gc.threshold as usize);
+    for op in &sess.ops {
+        match op {
+            SOp::Run { path, eval } => {
+                let spec = crate::host::RunSpec {
+                    source: sess.modules.get(path).cloned().unwrap_or_default(),
+                    path: Some(path.clone()),
+                    modules: sess.modules.clone(),
+                    answers: Default::default(),
+                    driver: if *eval { Driver::Eval } else { Driver::Step },
+                    gc: gc.clone(),
+                    tape: Tape::from_vec(vec![]),
+                    fuel,
+                    clock_start: 0,
+                    random_seed: 1,
+                    withhold_imports: false,
+                    linked_promises: false,
+                    host_activity_pm: 0,
+                    internal_sources: Default::default(),
+                };
+                let out = crate::props::c11::run_to_end(&mut h, spec);
+                crate::host::install_gc(gc, 0);
+                trace.push(format!("run {} -> {} | {:?} | {:?} | {:?}", path, out.result, out.console, out.exports, out.traffic));
+                total.forced_collects += out.forced_collects;
+                total.stale.extend(out.stale);
+            }
+            SOp::Keep { name } => {
+                let v = api::get_export(&h.interp, name);
+                match v {
+                    Some(v) => {
+                        api::guard_value(&keep_guard, &v);
+                        trace.push(format!("keep {} = {}", name, crate::host::show_value(&v)));
+                        kept.push(v);
+                    }
+                    None => {
+                        trace.push(format!("keep {} = <none>", name));
+                        kept.push(tsrun::JsValue::Undefined);
+                    }
+                }
+            }
+            SOp::Call { idx, arg } => {
+                let f = kept.get(*idx).cloned().unwrap_or(tsrun::JsValue::Undefined);
+                tsrun::verif::set_fuel(Some(fuel));
+                let r = if f.is_callable() {
+                    match api::call_function(&mut h.interp, &keep_guard, &f, None, &[tsrun::JsValue::Number(*arg as f64)]) {
+                        Ok(v) => {
+                            let s = crate::host::show_value(&v);
+                            kept.push(v);
+                            s
+                        }
+                        Err(e) => {
+                            kept.push(tsrun::JsValue::Undefined);
+                            let (k, m) = crate::host::err_kind_msg(&e);
+                            format!("error:{}:{}", k, m)
+                        }
+                    }
+                } else {
+                    kept.push(tsrun::JsValue::Undefined);
+                    "not-callable".to_string()
+                };
+                trace.push(format!("call #{}({}) = {}", idx, arg, r));
+            }
+            SOp::Read { idx } => {
+                let v = kept.get(*idx).cloned().unwrap_or(tsrun::JsValue::Undefined);
+                trace.push(format!("read #{} = {} keys={:?}", idx, crate::host::show_value(&v), api::keys(&v)));
+            }
+            SOp::Collect => {
+                if !gc.is_off() {
+                    h.interp.collect();
+                    total.forced_collects += 1;
+                }
+            }
+            SOp::Churn(n) => {
+                let g = api::create_guard(&h.interp);
+                for i in 0..*n {
+                    let _ = api::create_from_json(&mut h.interp, &g, &serde_json::json!({"junk": [i, {"j": i}], "s": "x"}));
+                }
+            }
+        }
+    }
+    let stale = tsrun::verif::take_stale_derefs();
+    total.stale.extend(stale.iter().map(|s| format!("{:?}", s)));
+    total.counters = tsrun::verif::counters();
+    tsrun::verif::set_gc_decider(None);
+    tsrun::verif::set_fuel(None);
+    (trace, total)
 }
 
 pub struct C02;
@@ -115,10 +307,26 @@ impl Check for C02 {
             schedules,
             tape: Tape::random(rng, 24),
             fuel: 400_000,
+            session: None,
         }
     }
 
     fn generate_stream(&self, stream: &str, rng: &mut Rng, idx: usize, tier: Tier) -> Scn {
+        if stream == "sessions" {
+            let n = 3 + rng.below(4);
+            let schedules = (0..n)
+                .map(|_| {
+                    let mut g = random_gc(rng);
+                    // bursts are placed by the reference allocation count of ONE run: not meaningful here
+                    if matches!(g.inject, Inject::WindowFrac { .. }) {
+                        g.inject = Inject::Prob { pm: 100, seed: rng.next_u64() };
+                    }
+                    g
+                })
+                .collect();
+            let dummy = ProgCase { tree: Node::leaf("0"), answers: Default::default(), variant: HoleVariant::Sync, module_path: None, modules: Default::default(), tags: vec!["session".into()] };
+            return Scn { case: dummy, driver: Driver::Step, schedules, tape: Tape::from_vec(vec![]), fuel: 400_000, session: Some(gen_session(rng)) };
+        }
         if stream != "corpus" {
             return self.generate(rng, idx, tier);
         }
@@ -135,11 +343,32 @@ impl Check for C02 {
         let n = 4 + rng.below(4);
         let schedules = (0..n).map(|_| random_gc(rng)).collect();
         let driver = if rng.chance(0.7) { Driver::Step } else { Driver::Eval };
-        Scn { case, driver, schedules, tape: Tape::random(rng, 8), fuel }
+        Scn { case, driver, schedules, tape: Tape::random(rng, 8), fuel, session: None }
     }
 
     fn shrink(&self, scn: &Scn) -> Vec<Scn> {
         let mut out = Vec::new();
+        if let Some(sess) = &scn.session {
+            if scn.schedules.len() > 1 {
+                for g in &scn.schedules {
+                    out.push(Scn { schedules: vec![g.clone()], ..scn.clone() });
+                }
+            }
+            // drop one op (indices of kept values shift: only ops that keep nothing are dropped freely,
+            // a Keep/Call is replaced by a Keep of a name that does not exist, which keeps the slot)
+            for i in (0..sess.ops.len()).rev() {
+                let mut s2 = sess.clone();
+                match &sess.ops[i] {
+                    SOp::Keep { name } if name == "-" => continue,
+                    SOp::Keep { .. } | SOp::Call { .. } => s2.ops[i] = SOp::Keep { name: "-".into() },
+                    _ => {
+                        s2.ops.remove(i);
+                    }
+                }
+                out.push(Scn { session: Some(s2), ..scn.clone() });
+            }
+            return out;
+        }
         if scn.schedules.len() > 1 {
             for s in &scn.schedules {
                 out.push(Scn { schedules: vec![s.clone()], ..scn.clone() });
@@ -208,6 +437,46 @@ impl Check for C02 {
     }
 
     fn execute(&self, scn: &Scn) -> RunReport {
+        if let Some(sess) = &scn.session {
+            let mut rep = RunReport::default();
+            let (reference, rtot) = run_session(sess, &GcSched::off(), scn.fuel);
+            rep.sim_instructions += rtot.counters.instructions;
+            if std::env::var("TSIM_SHOW_SESSION").is_ok() {
+                for l in &reference {
+                    println!("  {}", l.chars().take(400).collect::<String>());
+                }
+            }
+            let mut digest = format!("{:x}", crate::rng::hash_str(&reference.join("\n")));
+            let mut any_collected = false;
+            for (si, g) in scn.schedules.iter().enumerate() {
+                let (trace, tot) = run_session(sess, g, scn.fuel);
+                rep.sim_instructions += tot.counters.instructions;
+                any_collected |= tot.counters.collections > 0;
+                rep.bump("collections", tot.counters.collections);
+                rep.bump("collections_injected", tot.counters.injected);
+                rep.bump("collections_forced_by_host", tot.forced_collects);
+                rep.bump("session_ops", sess.ops.len() as u64);
+                rep.bump("session_host_calls_of_kept_functions", sess.ops.iter().filter(|o| matches!(o, SOp::Call { .. })).count() as u64);
+                rep.bump("session_entry_runs", sess.ops.iter().filter(|o| matches!(o, SOp::Run { .. })).count() as u64);
+                digest.push_str(&format!("|{:?}", g));
+                if rep.failure.is_some() {
+                    continue;
+                }
+                if trace != reference {
+                    let first = reference.iter().zip(trace.iter()).position(|(a, b)| a != b).unwrap_or(reference.len().min(trace.len()));
+                    rep.fail(Failure::new(
+                        "session_trace_differs_from_gc_off",
+                        trace.get(first).cloned().unwrap_or_default().chars().take(200).collect::<String>(),
+                        json!({"schedule_index": si, "schedule": g, "first_differing_event": first, "expected": reference.get(first), "observed": trace.get(first), "reference_trace": reference}),
+                    ));
+                } else if !tot.stale.is_empty() {
+                    rep.fail(Failure::new("stale_deref", tot.stale[0].clone(), json!({"schedule_index": si, "schedule": g, "stale": tot.stale})));
+                }
+            }
+            rep.nontrivial = any_collected;
+            rep.trace_hash = crate::rng::hash_str(&digest);
+            return rep;
+        }
         let mut rep = RunReport::default();
         let reference = run_solo(&scn.case.spec(scn.driver, GcSched::off(), scn.tape.clone(), scn.fuel));
         rep.sim_instructions += reference.counters.instructions;
